@@ -500,7 +500,8 @@ class NDNApp:
         del self._prefix_tree[name]
 
     def _on_nack(self, name: FormalName, nack_reason: int):
-        node = self._int_tree[name]
+        # A Nack may name an Interest that is not (or no longer) pending
+        node = self._int_tree.get(name)
         if node:
             if node.nack_interest(nack_reason):
                 del self._int_tree[name]
